@@ -7,15 +7,16 @@ _stubs = ['coroutine layer replaced by the waker model (harness/procs.c): yield 
           'cmb_event.c replaced by its contract stub harness/evstub.h (flat pending set; contract established by the C01 groups)', 'cmi_hashheap.c (guard queues) replaced by its contract stub hhstub.h (contract from C02)', 'cmi_mempool_alloc/_free redirected to plain allocation (contract of C20: distinct live objects; freed tags must not be used)',
           'demand functions / holdable drop+reprio methods: recording stubs']
 _assumes = ['user-chosen signal values (timers, interrupts, resume) are not 0 = SUCCESS', 'at most 2 foreign causes, 2 waiters, 2 queued processes per scenario (bounded-shape)']
-def _p(gid, prop, entry, define, bound, also=(), timeout=900, tier='quick', unwind=6, canaries=1, extra=(), observers=0):
+def _p(gid, prop, entry, define, bound, also=(), timeout=900, tier='quick', unwind=6, canaries=1, extra=(), observers=0, replay=None):
     return Group(id=gid, prop=prop, harness='procs.c', entry=entry, defines=[define] + list(extra), level='bounded-shape', bound=bound, backend='sat', timeout=timeout, tier=tier, canaries=canaries,
                  unwind=unwind, unwindset='cmb_resourceguard_signal.0:%d' % (observers + 1), functions=_f, stubs=_stubs, assumes=_assumes, also=list(also) + ['C10'],
                  replace_calls=[('cmi_mempool_alloc', 'cmv_pool_alloc'), ('cmi_mempool_free', 'cmv_pool_free')],
-                 extract={'src/cmb_event.c': ['wakeup_event_event']})
+                 extract={'src/cmb_event.c': ['wakeup_event_event']}, replay=replay)
 GROUPS = [
     _p('C04.O1.hold', 'C04', 'h_hold', 'H_HOLD', 'hold with <= 2 arbitrary foreign causes (user timer / interrupt / resume) at arbitrary times and priorities', canaries=2),
     _p('C04.O2.timers', 'C04', 'h_timers', 'H_TIMERS', 'two armed timers + one unrelated registration; cancel / clear'),
-    _p('C04.O3.wait_process', 'C04', 'h_waitproc', 'H_WAITPROC', 'one foreign cause; the awaited process running / stopped later / already finished; second waiter', also=['C09'], canaries=2),
+    _p('C04.O3.wait_process', 'C04', 'h_waitproc', 'H_WAITPROC', 'one foreign cause; the awaited process running / stopped later (and possibly disposed of by its owner before the caller runs again) / already finished; second waiter', also=['C09'], canaries=2,
+       replay=replays.demo_replay('c10_waitproc_demo.c')),
     _p('C04.O3.wait_event', 'C04', 'h_waitevent', 'H_WAITEVENT', 'one foreign cause; the awaited event executes, or is cancelled first', canaries=2),
 ] + [_p('C04.O3.guard_wait.%s' % nm, 'C04', 'h_guardwait', 'H_GUARDWAIT', 'another waiter queued; while the caller is suspended the guard is signalled (demand true/false) and %s' % txt, also=['C08'], canaries=cn, extra=['CMV_LITE', 'CMV_KIND=%d' % k])
      for k, nm, txt, cn in ((0, 'granted', 'nothing else happens', 1), (1, 'timeout', 'a user timer of the caller fires at an arbitrary time', 2), (2, 'interrupt', 'the caller is interrupted with arbitrary priority', 2), (3, 'resume', 'the caller is resumed by a user resume', 2))] + [
